@@ -87,3 +87,80 @@ def check_area(sx, world, before, what):
              if b not in world.area]
     sx.check(sx.all(conds), "%s-final-memory-differs-outside-ndef-area:%s" % (what, kind))
     world.sim.writes = []
+
+
+class PowerCut(object):
+    """hook: before every state-changing command ask a fresh symbolic Boolean
+    'is power cut now?' (lazy fork: n+1 cut points for n writes)"""
+
+    def __init__(self, sx):
+        self.sx = sx
+        self.k = 0
+        self.cut_at = None
+
+    def __call__(self, sim, cmd):
+        if not sim.is_write(cmd):
+            return
+        if self.sx.truth(self.sx.flag("cut_before_write_%d" % self.k)):
+            self.cut_at = self.k
+            sim.gone = True
+            raise nfc.clf.TimeoutError("power cut")
+        self.k += 1
+
+
+def cutflow(sx, world, n):
+    """C02: a write interrupted before its k-th state-changing command; then a
+    fresh reader"""
+    kind = world.kind
+    tag, ndef = open_ndef(sx, world, "first")
+    if ndef is None:
+        sx.check(False, "well-formed-layout-not-recognised:" + kind)
+    cap = sx.concrete(ndef.capacity)
+    if n > cap:
+        return "too-long"
+    msg = new_message(sx, n, getattr(world, 'long_trick', False))
+    for l in world.geometry(n):
+        sx.reach(l)
+    cut = PowerCut(sx)
+    world.sim.hook = cut
+    try:
+        ndef.octets = msg
+        world.sim.hook = None
+        sx.reach("write_completed_without_cut")
+        return "no-cut"
+    except nfc.tag.TagCommandError:
+        pass
+    if cut.cut_at is None:
+        sx.check(False, "tag-command-error-without-fault:" + kind)
+    sx.reach("cut")
+    if cut.cut_at == 0:
+        sx.reach("cut_before_first_write")
+    # tag back in the field, fresh reader
+    world.sim.hook = None
+    world.sim.gone = False
+    tag2, ndef2 = open_ndef(sx, world, "after-cut")
+    phase = "%s:lenfmt=%d->%d" % (kind, lenbytes(world.oldlen), lenbytes(n))
+    if ndef2 is None:
+        sx.reach("after_cut_no_ndef")
+        return "cut:none"
+    if not ndef2.is_readable:
+        sx.reach("after_cut_not_readable")
+        return "cut:unreadable"
+    got = ndef2.octets
+    if len(got) == 0:
+        sx.reach("after_cut_empty")
+        return "cut:empty"
+    ok = []
+    if len(got) == len(world.old):
+        ok.append(sx.eq(got, world.old))
+    if len(got) == n:
+        ok.append(sx.eq(got, msg))
+    if not ok:
+        sx.check(False, "after-cut-length-is-neither-old-nor-new:" + phase)
+    sx.check(sx.any(ok), "after-cut-content-is-mixture:" + phase)
+    sx.reach("after_cut_old_or_new")
+    return "cut:old-or-new"
+
+
+def lenbytes(n):
+    return 1 if n < 255 else 3
